@@ -566,6 +566,85 @@ def r5(p, rep):
     rep.add("C10.R5", f"{f.qualname}:memo", f.loc, ok, f"memo implemented by {sorted(set(ext))}" if ok else "the cache is not (only) functools' thread-safe cache")
     rep.assume("functools.cache / functools.lru_cache are safe for concurrent callers (may compute twice, never mix entries) and do not cache exceptions")
 
+def _feeding(fnode, expr):
+    """names and expressions the value of `expr` is built from, through local single assignments (transitively)"""
+    exprs, seen, todo = [expr], set(), [x.id for x in ast.walk(expr) if isinstance(x, ast.Name)]
+    while todo:
+        n = todo.pop()
+        if n in seen:
+            continue
+        seen.add(n)
+        for a in ast.walk(fnode):
+            if isinstance(a, ast.Assign) and any(isinstance(t, ast.Name) and t.id == n for t in a.targets):
+                exprs.append(a.value)
+                todo += [x.id for x in ast.walk(a.value) if isinstance(x, ast.Name)]
+    return seen, exprs
+
+
+def _is_backend_value(f, e, seen):
+    """does the *value* of e denote a backend object: the `backend` parameter, kwargs["backend"], a registry lookup,
+    Use(...), or a local / conditional expression standing for one of those (attributes of a backend, such as
+    a lock it owns, are not backends)"""
+    if isinstance(e, ast.Name):
+        if e.id == "backend" and (e.id in f.params or any(e.id in g.params for g in _enclosing_funcs(f))):
+            return True
+        if e.id in seen:
+            return False
+        seen.add(e.id)
+        defs = [a.value for a in ast.walk(f.node) if isinstance(a, ast.Assign) and any(isinstance(t, ast.Name) and t.id == e.id for t in a.targets)]
+        return any(_is_backend_value(f, d, seen) for d in defs)
+    if isinstance(e, ast.Subscript) and isinstance(e.slice, ast.Constant) and e.slice.value == "backend":
+        return True
+    if isinstance(e, ast.IfExp):
+        return _is_backend_value(f, e.body, seen) or _is_backend_value(f, e.orelse, seen)
+    if isinstance(e, ast.BoolOp):
+        return any(_is_backend_value(f, v, seen) for v in e.values)
+    if isinstance(e, ast.Call):
+        fn = norm(e.func)
+        if fn.split(".")[-1] == "Use":
+            return True
+        if isinstance(e.func, ast.Attribute) and e.func.attr in ("get", "get_by_name", "get_by_tensors") and ("registry" in norm(e.func.value) or norm(e.func.value).split(".")[-1] == "backend"):
+            return True
+        if isinstance(e.func, ast.Attribute) and e.func.attr == "pop" and e.args and isinstance(e.args[0], ast.Constant) and e.args[0].value == "backend":
+            return True
+    return False
+
+
+def _enclosing_funcs(f):
+    g = f.parent
+    while g is not None:
+        yield g
+        g = g.parent
+
+
+def r6(p, rep):
+    rep.rule("C10.R6", "einx never enters a backend selection on its own: the process-global use_stack is only pushed by the caller's `with backend:`", "T-EFF (who may enter) over with-items / enter calls by provenance", floor=3)
+    owner = p.module("frontend.backend")
+    reg_enter = {"enter", "exit"}
+    n = 0
+    for f in p.funcs.values():
+        if f.module is owner or any(f.module.name == m for m in common.OFF_PATH_MODULES):
+            continue
+        for node in walk_no_nested(f.node):
+            items = []
+            if isinstance(node, (ast.With, ast.AsyncWith)):
+                items = [(i.context_expr, "with") for i in node.items]
+            elif isinstance(node, ast.Call) and isinstance(node.func, ast.Attribute) and node.func.attr in ("__enter__", "enter_context"):
+                items = [(node.func.value if node.func.attr == "__enter__" else (node.args[0] if node.args else node), node.func.attr)]
+            elif isinstance(node, ast.Call) and isinstance(node.func, ast.Attribute) and node.func.attr in reg_enter and "registry" in norm(node.func.value):
+                n += 1
+                rep.violation("C10.R6", f"{f.qualname}:registry.{node.func.attr}", f"{f.module.rel}:{node.lineno}", f"`{norm(node)[:60]}` pushes / pops the process-global use_stack from inside einx: a concurrent call in another thread resolves to this call's backend")
+                continue
+            for e, how in items:
+                n += 1
+                from_backend = _is_backend_value(f, e, set())
+                key = f"{f.qualname}:{how}:{norm(e)[:40]}"
+                if from_backend:
+                    rep.violation("C10.R6", key, f"{f.module.rel}:{node.lineno}", f"`{how} {norm(e)[:50]}` enters a backend object (derived from the call's backend argument / a registry lookup) inside einx: this pushes onto the process-global use_stack for the duration of the call, so concurrent calls without backend= in other threads resolve to it, and another thread's `with backend:` breaks the LIFO exit")
+                else:
+                    rep.ok("C10.R6", key, f"{f.module.rel}:{node.lineno}", f"context `{norm(e)[:50]}` is not a backend selection")
+    return n
+
 
 def run(p, rep, tier):
     lockinfo = r1(p, rep)
@@ -573,4 +652,5 @@ def run(p, rep, tier):
     r3(p, rep, lockinfo)
     r4(p, rep)
     r5(p, rep)
+    r6(p, rep)
     rep.info["undecided"] = "linearizability of whole call histories; the process-global use_stack being shared by threads is a specification question"
